@@ -180,6 +180,23 @@ func (c *Ctx) errFlow(sp *errFlowSpec, call *ast.CallExpr) errFlowResult {
 					if c.storesParamIntoSink(info, call, i, sp.sinkVars, named) {
 						return true
 					}
+					// or to a helper that sends a record carrying its parameter (`sendFailure(ch, id, err)`)
+					if g := calleeOf(info, call); g != nil && inRepo(g) {
+						if gi := c.FuncOfObj(g); gi != nil && gi.Decl.Body != nil {
+							if p := paramObj(gi.Pkg.TypesInfo, gi.Decl, i); p != nil {
+								sends := false
+								ast.Inspect(gi.Decl.Body, func(m ast.Node) bool {
+									if ss, isSend := m.(*ast.SendStmt); isSend && mentions(gi.Pkg.TypesInfo, ss.Value, p) {
+										sends = true
+									}
+									return true
+								})
+								if sends {
+									return true
+								}
+							}
+						}
+					}
 				}
 			}
 		}
